@@ -56,6 +56,14 @@ def receive_handlers(prog, sem):
                 return False
             if site_guarded(sem, h, bb, ft)[0]:
                 toks.append(tk)
+        if not hooks and not toks:
+            # a call every hook passes through that neither writes nor emits anything (a classifier such as
+            # `HookOrigin::identify(&caller, config)`) is not a handler
+            from ..callgraph import message_effects
+            sub = subtree(vs, v)
+            if not any(kind in ("write", "update", "remove") for (_v, _bb, kind, _c, _k, _val, _e) in storage_effects(sem, sub)) and \
+                    not message_effects(sem, sub):
+                continue
         out.setdefault((tuple(hooks), tuple(toks)), []).append(v)
     return vs, h, out
 
